@@ -377,6 +377,41 @@ def maker(k: int):
 """,
 }
 
+CLOSURE_SHAPES["named-kernel-as-value"] = """
+@move{MDEC}
+def maker(k: int):
+    return ({LOOKUPS}, k)
+
+@move
+def apply(f, k: int):
+    return f(k)
+
+@move{DEC}
+def root(a: int):
+    return apply(maker, a)
+"""
+CLOSURE_SHAPES["named-kernel-as-value-in-a-branch"] = """
+@move{MDEC}
+def maker(k: int):
+    return ({LOOKUPS}, k)
+
+@move
+def other(k: int):
+    return ({L1}, {L0}, k)
+
+@move
+def apply(f, k: int):
+    return f(k)
+
+@move{DEC}
+def root(a: int):
+    if a > 0:
+        r = apply(maker, a)
+    else:
+        r = apply(other, a)
+    return r
+"""
+
 CLOSURE_ROOT = """
 @move{DEC}
 def root(a: int):
@@ -398,7 +433,8 @@ def closure_cases(ctx, S):
             l0, l1 = calls[k], calls[kinds[(i + 1) % len(kinds)]]
             for mdec in ("", "(fold=False)"):
                 body = tmpl.replace("{LOOKUPS}", f"{l0}, {l1}").replace("{L0}", l0).replace("{L1}", l1).replace("{MDEC}", mdec)
-                body += CLOSURE_ROOT.replace("{MARG}", "4" if shape == "captures-parameter" else "")
+                if "def root" not in body:
+                    body += CLOSURE_ROOT.replace("{MARG}", "4" if shape == "captures-parameter" else "")
                 for fold in (True, False):
                     ctx.evaluations += 1
                     n += 1
@@ -425,6 +461,77 @@ def closure_cases(ctx, S):
     ctx.count("closure shapes x lookup kind x maker folded/not x root fold", n)
 
 
+def filled_spec():
+    """zones that are FILLED grids: two static traps and two special grids over ONE underlying geometry that differ only in their vacancies,
+    next to the plain zone itself under another name"""
+    from bloqade.geometry.dialects.grid import Grid
+    from bloqade.shuttle.arch import ArchSpec, Layout
+    from bloqade.shuttle.dialects.filled.types import FilledGrid
+    base = Grid.from_positions([0.0, 2.0, 4.0], [0.0, 3.0])
+    sbase = Grid.from_positions([-4.0, -2.0], [0.5, 1.5])
+    lay = Layout(static_traps={"plain": base, "fa": FilledGrid.vacate(base, [(0, 0)]), "fb": FilledGrid.vacate(base, [(1, 1)]), "fnone": FilledGrid.vacate(base, [])},
+                 fillable={"plain"}, has_cz={"plain"}, has_local={"fa"},
+                 special_grid={"sa": FilledGrid.vacate(sbase, [(0, 1)]), "sb": FilledGrid.vacate(sbase, [(1, 0)]), "splain": sbase})
+    return ArchSpec(layout=lay, float_constants={}, int_constants={})
+
+
+FILLED_SRC = """
+@move
+def pick(c: bool):
+    if c:
+        z = {A}
+    else:
+        z = {B}
+    return z
+
+@move{DEC}
+def root(c: bool, n: int):
+    z = {B}
+    if c:
+        z = {A}
+    w = {A}
+    i = 0
+    for i in range(n):
+        w = {B}
+    return (z, pick(c), w, {A}, {B})
+"""
+
+
+def filled_zone_cases(ctx):
+    """lookups of zones that are filled grids, meeting at joins that depend on run-time values; the value must be the zone the run selects"""
+    from bloqade.shuttle.arch import ArchSpecInterpreter
+    from bloqade.shuttle.prelude import move
+    S = filled_spec()
+    st = lambda n: f'spec.get_static_trap(zone_id="{n}")'
+    sp = lambda n: f'spec.get_special_grid(grid_id="{n}")'
+    pairs = [(st("fa"), st("fb")), (st("fb"), st("fa")), (st("plain"), st("fa")), (st("fnone"), st("plain")), (sp("sa"), sp("sb")), (sp("splain"), sp("sb")), (st("fa"), sp("sa"))]
+    n = 0
+    show = lambda v: repr([(type(g).__name__, tuple(g.x_positions), tuple(g.y_positions), sorted(getattr(g, "vacancies", ()))) for g in v])
+    for A, B in pairs:
+        body = FILLED_SRC.replace("{A}", A).replace("{B}", B)
+        for fold in (True, False):
+            for args in ((True, 0), (False, 0), (True, 2), (False, 1)):
+                ctx.evaluations += 1
+                n += 1
+                rep = {"filled_src": body, "fold": fold, "args": list(args)}
+                try:
+                    a = show(kernels.define(body.replace("{DEC}", f"(arch_spec=S, fold={fold})"), S=S)["root"](*args))
+                except Exception as e:
+                    a = "ERR:" + type(e).__name__
+                try:
+                    b = show(ArchSpecInterpreter(move, arch_spec=S).run(kernels.define(body.replace("{DEC}", ""), S=S)["root"], args))
+                except Exception as e:
+                    b = "ERR:" + type(e).__name__
+                if b.startswith("ERR"):
+                    ctx.obligation("the filled-zone kernel runs under the spec interpreter", False, b)
+                elif a != b:
+                    ctx.fail({"kind": "behaviour-differs", "filled_zones": True, "fold": fold}, rep,
+                             f"zones that are filled grids ({A} / {B}), args {args}, fold={fold}: the compiled kernel returns {a[:120]}, the unspecialised kernel against the spec {b[:120]}")
+                else:
+                    ctx.nt(("filled-zone", A, B, fold, args))
+    ctx.count("filled-grid zones meeting at run-time joins x fold x arguments", n)
+
+
 def run(ctx):
     from bloqade.shuttle.arch import ArchSpecInterpreter
     from bloqade.shuttle.prelude import move
@@ -432,6 +539,7 @@ def run(ctx):
     handled = reflect_handled(ctx, S)
     single_lookup_cases(ctx, S)
     closure_cases(ctx, S)
+    filled_zone_cases(ctx)
     ctx.rule = ("tables of 2-4 @move kernels (root + subroutines, some recursive with a depth parameter, closures capturing looked-up values, "
                 "closures returned from recursive subroutines and called by the root) mixing the four lookup kinds (6% absent names) with "
                 "constants, tuples, variables; root compiled with arch_spec (fold on and off) and called through ir.Method.__call__ (plain "
@@ -679,6 +787,17 @@ def replay(data):
             b = "ERR"
         known = inp["name_known_under_this_kind"]
         return a != b or (not known and a != "ERR") or (known and a == "ERR"), f"compiled: {a[:60]}; spec interpreter: {b[:60]}"
+    if "filled_src" in inp:
+        from bloqade.shuttle.arch import ArchSpecInterpreter
+        from bloqade.shuttle.prelude import move
+        S = filled_spec()
+        show = lambda v: repr([(type(g).__name__, tuple(g.x_positions), tuple(g.y_positions), sorted(getattr(g, "vacancies", ()))) for g in v])
+        try:
+            a = show(kernels.define(inp["filled_src"].replace("{DEC}", f"(arch_spec=S, fold={inp['fold']})"), S=S)["root"](*inp["args"]))
+        except Exception as e:
+            a = "ERR:" + type(e).__name__
+        b = show(ArchSpecInterpreter(move, arch_spec=S).run(kernels.define(inp["filled_src"].replace("{DEC}", ""), S=S)["root"], tuple(inp["args"])))
+        return a != b, f"compiled: {a[:100]}; spec interpreter: {b[:100]}"
     if "closure_src" in inp:
         from bloqade.shuttle.arch import ArchSpecInterpreter
         from bloqade.shuttle.prelude import move
